@@ -36,6 +36,7 @@ def accepts_what_the_rfc_rejects(o, i, m):
 
 CFG = dict(
     streams=[('frame', 2500, 40000)],
+    issue_prefixes=['frame:'],
     oracle_ops={'frt', 'frtmeta', 'frtmeta2', 'frdspec'},
     self_evident=lambda o, i: 'panic' in i or over_limit(o, i),
     spec_part=accepts_what_the_rfc_rejects,
